@@ -1111,6 +1111,8 @@ def run_pause_resume(spec, acc):
 
             def ctrl():
                 yield at
+                # (runs under the library lock: the step count cannot change here)
+                marks['steps-before'] = len(wakes)
                 if how == 'pause-resume':
                     r.pause()
                     yield gap
@@ -1156,6 +1158,16 @@ def run_pause_resume(spec, acc):
              'state': state}
         ks = [k for k, _ in got]
         m = int(at / d) + 1                     # steps done before the controller acted
+        if ck == 'TempoClock' and not nrt:
+            # two clock threads: which of them is served first when both are due is
+            # a matter of physical time (a late thread, a loaded host), so the
+            # controller may find fewer or more steps done than the logical times
+            # say; what it found is the reference (same clock or NRT: exact)
+            m_seen = marks.get('steps-before', m)
+            if m_seen != m:
+                acc.count('pause_resume_rt_cross_thread_order_differs_from_logical')
+            m = m_seen
+        w['steps_before_controller'] = m
         exp_ks = list(range(n)) if how == 'pause-resume' else list(range(m)) + list(range(n))
         what = None
         if ks != exp_ks:
